@@ -10,3 +10,4 @@ import RSVerif.Properties.C15
 #print axioms RS.evalPoly_is_convolution
 #print axioms RS.evalPoly_is_locator_log
 #print axioms RS.tables_spec
+#print axioms RS.table_construction_correct
